@@ -27,6 +27,9 @@ THOROUGH_TIMEOUT_MS = 90000
 def solve(pc, goal, timeout_ms):
     """Check validity of (pc => goal).  Returns (verdict, model|None, backend, seconds)."""
     t0 = time.time()
+    g = z3.simplify(goal)
+    if z3.is_true(g):
+        return "unsat", None, "trivial", 0.0
     s = z3.Solver()
     s.set("timeout", timeout_ms)
     s.add(*pc)
@@ -102,6 +105,7 @@ def run_contract_case(contract: Contract, case, registry: Registry, tier, seed):
         I.loop_specs = {(contract.func.__qualname__, k) if not isinstance(k, tuple) else k: v for k, v in contract.loops.items()}
         if contract.inline is not None:
             I.inline_only = set(contract.inline)
+        I.lenient = bool(getattr(contract, "lenient", False))
         args, kwargs = contract.setup(ctx)
         # reachability of the precondition (vacuity guard)
         try:
@@ -116,6 +120,8 @@ def run_contract_case(contract: Contract, case, registry: Registry, tier, seed):
         ex.run(body)
     except Unsupported as u:
         res["unsupported"] = str(u)
+        if os.environ.get("PYVC_DEBUG"):
+            traceback.print_exc()
     except RecursionError:
         res["unsupported"] = "recursion limit in the symbolic interpreter"
     except (AttributeError, KeyError, TypeError, IndexError, ValueError, z3.Z3Exception, AssertionError, NotImplementedError) as exc:
